@@ -304,6 +304,11 @@ func applyFault(m *h.ResponseModel, sp h.SPConfig, f Fault) (ErrSpec, bool) {
 			a.SCNotOnOrAfter = h.S(now.Add(48 * time.Hour).UTC().Format("2006-01-02T15:04:05"))
 		case "lspace":
 			a.SCNotOnOrAfter = h.S(" " + now.Add(48*time.Hour).UTC().Format(time.RFC3339))
+		case "past-far":
+			// decades before any clock this harness can meet (used with a service provider that has NO Clock set and
+			// therefore follows the system time)
+			a.SCNotOnOrAfter = h.S("2001-09-09T01:46:40Z")
+			return ErrSpec{Type: "ErrInvalidValue", Key: "NotOnOrAfter", Reason: saml2.ReasonExpired}, true
 		case "past1ns":
 			a.SCNotOnOrAfter = h.S(h.RenderTime(now.Add(-1), 0, true, 9))
 			return ErrSpec{Type: "ErrInvalidValue", Key: "NotOnOrAfter", Reason: saml2.ReasonExpired}, true
@@ -676,6 +681,71 @@ func TestC03_Grid(t *testing.T) {
 					c.Encoded = enc
 					cases = append(cases, c)
 				}
+			}
+		}
+	}
+	h.RunCases(t, "C03", cases, checkC03)
+}
+
+// TestC03_GridNoClock: a service provider WITHOUT a Clock follows the system time (the signature library's Clock
+// is nil-safe). The documents are dated around 2050 (in the future of any system clock this runs under, so nothing
+// is expired) except for the "past-far" bound of 2001; every clock-independent fault is crossed in as well. The
+// certificates are the 1960-2260 ones. Nothing here depends on WHERE between 2002 and 2049 the system clock is.
+func TestC03_GridNoClock(t *testing.T) {
+	var cases []C03Case
+	for _, mode := range []string{"response", "assertions", "skip"} {
+		for n := 1; n <= 3; n++ {
+			faults := []Fault{{Target: -2}}
+			for _, k := range sortedKeys(respFaults) {
+				faults = append(faults, Fault{-1, k, respFaults[k][0]})
+			}
+			for pos := 0; pos < n; pos++ {
+				faults = append(faults, Fault{pos, "nooa", "past-far"})
+				for _, k := range sortedKeys(asrtFaults) {
+					for _, v := range asrtFaults[k] {
+						if k == "nooa" && (strings.HasPrefix(v, "past") || strings.HasPrefix(v, "equal")) {
+							continue // relative to a clock the service provider does not have
+						}
+						faults = append(faults, Fault{pos, k, v})
+						if k != "nooa" {
+							break
+						}
+					}
+				}
+			}
+			for _, f := range faults {
+				sp := h.BaseSP()
+				sp.NilClock = true
+				sp.NowUnixNano = time.Date(2050, 1, 1, 0, 0, 0, 0, time.UTC).UnixNano() // what the documents are dated by
+				sp.Store = []h.CertRef{{Key: "T1", Window: "long"}}
+				g := gridGenuine(sp, n, mode)
+				for _, sg := range append([]*h.SignSpec{g.RespSig}, g.AsrtSig...) {
+					if sg != nil {
+						sg.Signer.Window = "long"
+						e := sg.Signer
+						sg.Embed = &e
+					}
+				}
+				if mode == "skip" {
+					sp.Skip = true
+				}
+				c := C03Case{SP: sp, Issue: g}
+				if f.Target != -2 {
+					spec, ok := applyFault(&g.Model, sp, f)
+					if !ok {
+						continue
+					}
+					c.Faults, c.Expect = []Fault{f}, []ErrSpec{spec}
+					if len(g.Model.Assertions) == 0 {
+						g.AsrtSig = nil
+					}
+				}
+				_, enc, _, err := g.Render()
+				if err != nil {
+					t.Fatalf("harness: %v", err)
+				}
+				c.Encoded = enc
+				cases = append(cases, c)
 			}
 		}
 	}
